@@ -123,6 +123,14 @@ func (mc *Metacontroller) Reconcile(ctx context.Context, request reconcile.Reque
 		return reconcile.Result{}, err
 	}
 
+	// A changed spec ends the running instance, whether or not the new spec
+	// can be started: the checks below may return early.
+	if pc, ok := mc.parentControllers[cc.Name]; ok && !apiequality.Semantic.DeepEqual(cc.Spec, pc.cc.Spec) {
+		pc.Stop()
+		mc.eventRecorder.Eventf(&cc, v1.EventTypeNormal, events.ReasonStopped, "Stopped controller: %s", cc.Name)
+		delete(mc.parentControllers, cc.Name)
+	}
+
 	groupVersion, err := schema.ParseGroupVersion(cc.Spec.ParentResource.APIVersion)
 	if err != nil {
 		return reconcile.Result{}, err
